@@ -4,6 +4,7 @@ imports and folded constants.  Nothing from nasim is ever imported or executed.
 import ast
 import os
 import hashlib
+import json
 
 REPO = os.environ.get("NASIM_REPO", "/repo")
 
@@ -46,6 +47,19 @@ class FuncInfo:
 
     def __repr__(self):
         return f"<Func {self.fq}>"
+
+
+def fingerprint(fi):
+    """hash of a function's parameters and body with its own name (and docstring) left out"""
+    node = fi.node
+    body = list(node.body)
+    if body and isinstance(body[0], ast.Expr) and isinstance(body[0].value, ast.Constant) \
+            and isinstance(body[0].value.value, str):
+        body = body[1:]
+    txt = ast.dump(node.args) + "|" + "|".join(ast.dump(b) for b in body)
+    # recursive calls mention the function's own name
+    txt = txt.replace(f"'{node.name}'", "'<self>'")
+    return hashlib.sha256(txt.encode()).hexdigest()[:24]
 
 
 class ClassInfo:
@@ -181,6 +195,44 @@ class Repo:
                 raise AnalysisError(f"cannot parse {rel}: {e}")
         self._link_classes()
         self._const_cache = {}
+        self._alias_renamed_anchors()
+
+    def _alias_renamed_anchors(self):
+        """an anchored private helper that no longer exists under its name but whose body lives on
+        under another name in the same class / module (a pure rename) is found again: the function
+        is registered under the anchored name too and carries that name from here on, so that
+        every rule sees the program it was written for.  Fingerprints: /verif/anchors.json."""
+        path = os.path.join(os.path.dirname(os.path.dirname(os.path.abspath(__file__))),
+                            "anchors.json")
+        self.renamed = {}
+        try:
+            with open(path) as fh:
+                table = json.load(fh)
+        except Exception:
+            return
+        for key, fp in table.items():
+            modname, qual = key.split(":")
+            m = self.modules.get(modname)
+            if m is None:
+                continue
+            if "." in qual:
+                cname, fname = qual.split(".", 1)
+                ci = m.classes.get(cname)
+                if ci is None or fname in ci.methods:
+                    continue
+                pool = ci.methods
+            else:
+                fname = qual
+                if fname in m.functions:
+                    continue
+                pool = m.functions
+            known = {k.split(":")[1].split(".")[-1] for k in table}
+            cands = [fi for n, fi in pool.items() if n not in known and fingerprint(fi) == fp]
+            if len(cands) == 1:
+                fi = cands[0]
+                self.renamed[key] = fi.name
+                fi.name = fname
+                pool[fname] = fi
 
     # ------------------------------------------------------------------ lookup
     def module(self, name):
